@@ -45,21 +45,33 @@ def run(chk, facts_dir, tier):
         b = prog.body(p)
         ev = Ev(prog, b)
         ok = False
+        from ..shapes import min_parts, uncast
+
+        def is_rf(x):
+            x = uncast(x)
+            return x[0] == "param" and x[2] == "replication_factor"
+
+        def is_n(x):
+            x = uncast(x)
+            return x[0] == "param" and x[2] == "total_node_count"
+
+        cands = []
         for bi, t in b.calls():
-            if (b.callee_decl(t) or "").endswith("::min"):
-                a0 = strip(ev.operand(t["args"][0], (bi, "T")))
-                a1 = strip(ev.operand(t["args"][1], (bi, "T")))
-                def is_rf(x):
-                    return x[0] == "param" and x[2] == "replication_factor"
-                def is_n(x):
-                    return x[0] == "param" and x[2] == "total_node_count"
-                # rf is widened (cast u8 -> usize) before the min, N is not narrowed
-                if (is_rf(a0) and is_n(a1)) or (is_rf(a1) and is_n(a0)):
-                    raw0 = ev.operand(t["args"][0], (bi, "T"))
-                    raw1 = ev.operand(t["args"][1], (bi, "T"))
-                    casts = [x for x in list(walk(raw0)) + list(walk(raw1)) if isinstance(x, tuple) and x and x[0] == "cast"]
-                    if all(c[2] == "usize" for c in casts):
-                        ok = True
+            cands.append(("call", b.callee_decl(t) or "", tuple(ev.operand(a, (bi, "T")) for a in t["args"]), bi, b.path))
+        for L, defs in b.defs.items():
+            ds = [d for d in defs if not d[2]["p"]]
+            if len(ds) == 2:
+                cands.append(("phi", tuple(ev._rvalue(d[3], (d[0], d[1]), 0) for d in ds)))
+        for cand in cands:
+            mp = min_parts(prog, b, ev, cand)
+            if mp is None:
+                continue
+            a0, a1 = mp
+            # rf is widened (cast u8 -> usize) before the min, N is not narrowed
+            if (is_rf(a0) and is_n(a1)) or (is_rf(a1) and is_n(a0)):
+                casts = [x for x in list(walk(a0)) + list(walk(a1)) if isinstance(x, tuple) and x and x[0] == "cast"]
+                if all(c[2] == "usize" for c in casts):
+                    ok = True
         if ok:
             chk.ok("R14.2", "%s: effective rf = min(rf as usize, N)" % p.split("::")[-1], b.where())
         else:
@@ -104,8 +116,19 @@ def run(chk, facts_dir, tier):
                 if last in ("sort_by", "sort_unstable_by"):
                     n_cmp = len([c for c in callsn if c.endswith("::cmp") or c.endswith("::partial_cmp")])
                     chained = any(c.endswith("Ordering::then") or c.endswith("Ordering::then_with") for c in callsn)
-                    total = n_cmp >= 2 and chained
-                    desc = "%s with %d comparisons%s" % (last, n_cmp, ", chained" if chained else "")
+                    # `match a.cmp(b) { Equal => c.cmp(d), o => o }`: the second comparison is made under a match on the first one's result
+                    cpath = cl[1].split(":", 1)[1]
+                    cb2 = prog.bodies.get(cpath)
+                    nested = False
+                    if cb2 is not None:
+                        from ..util import discr_switches
+                        cmps = [(bi2, t2) for bi2, t2 in cb2.calls() if (cb2.callee_decl(t2) or "").rsplit("::", 1)[-1] in ("cmp", "partial_cmp")]
+                        for sb2, place, targets, otherwise in discr_switches(cb2):
+                            firsts = [c2 for c2 in cmps if not place["p"] and c2[1]["dest"]["l"] == place["l"]]
+                            if firsts and any(cb2.dominates(sb2, c3[0]) and c3[0] != firsts[0][0] for c3 in cmps):
+                                nested = True
+                    total = n_cmp >= 2 and (chained or nested)
+                    desc = "%s with %d comparisons%s" % (last, n_cmp, ", chained" if chained else (", second under a match on the first" if nested else ""))
                 else:
                     r = strip(ret)
                     total = r[0] == "agg" and r[1] == "tuple" and len(r[2]) >= 2
